@@ -5,7 +5,7 @@
     dicom_json::from_str on syntactically valid text (Model/Json.v). [X : ext]
     holds the trusted float <-> decimal text functions of Rust's std; every
     theorem holds for all of them. *)
-From DicomV Require Import Model.Json Proofs.JsonBaseP Proofs.JsonP Proofs.JsonTotalP.
+From DicomV Require Import Model.Json Proofs.JsonBaseP Proofs.JsonP Proofs.JsonTotalP Proofs.JsonCanonP.
 
 (** Round trip, any nesting depth: a well-formed data set (ascending tags, no
     encapsulated pixel data, value kinds that fit the VR) serialises, and the
@@ -15,6 +15,14 @@ From DicomV Require Import Model.Json Proofs.JsonBaseP Proofs.JsonP Proofs.JsonT
 Theorem C23_rt : forall X d,
   wf_dset d = true -> exists j, ser X d = Ok j /\ de X j = Ok (norm_dset X d).
 Proof. exact de_ser_roundtrip. Qed.
+
+(** On canonical data sets (the form the deserialiser itself produces: strings
+    without trailing padding, numbers in the VR's native type, IS/DS as strings,
+    binary VRs as bytes, no NaN payloads, no empty trailing PN group) the
+    normalisation is the identity: the round trip returns the data set itself. *)
+Theorem C23_rt_exact : forall X d,
+  wf_dset d = true -> canon_dset d = true -> exists j, ser X d = Ok j /\ de X j = Ok d.
+Proof. exact de_ser_exact. Qed.
 
 (** Deserialising any JSON value returns a data set or an error: the
     [unreachable!()] of DataElementVisitor::visit_map and every other panic of
@@ -48,10 +56,22 @@ Definition C23_example : dset :=
 Example C23_nonvacuous : wf_dset C23_example = true.
 Proof. reflexivity. Qed.
 
+Definition C23_example_canonical : dset :=
+  dset_of [ (524309, V_SQ, vseq [dset_of [(1048608, V_LO, VPrim (PStrs [[73; 68]]))]; dset_of []]);
+            (1048592, V_PN, VPrim (PStrs [[65; 61; 66; 61; 67]]));
+            (1572944, V_FL, VPrim (PF32 [2143289344; 4286578688; 1069547520]));
+            (1572945, V_UV, VPrim (PInt KU64 [18446744073709551615%Z]));
+            (2145386512, V_OW, VPrim (PInt KU8 [1%Z; 0%Z; 254%Z; 255%Z])) ].
+Example C23_nonvacuous_exact : wf_dset C23_example_canonical = true /\ canon_dset C23_example_canonical = true.
+Proof. split; reflexivity. Qed.
+
 Check C23_rt : forall X d, wf_dset d = true -> exists j, ser X d = Ok j /\ de X j = Ok (norm_dset X d).
+Check C23_rt_exact : forall X d,
+  wf_dset d = true -> canon_dset d = true -> exists j, ser X d = Ok j /\ de X j = Ok d.
 Check C23_total : forall X j w, de X j <> Panic w.
 Check C23_total_text : forall X j w, de_text X j <> Panic w.
 Print Assumptions C23_rt.
+Print Assumptions C23_rt_exact.
 Print Assumptions C23_total.
 Print Assumptions C23_total_text.
 Print Assumptions C23_base64.
